@@ -16,7 +16,7 @@ use crate::refval;
 use crate::rng::{derive, Rng};
 use crate::run::{push_violation, violation, RunLog, RunReport, RunStats};
 use crate::snap::{Canon, Snap};
-use delaunay::geometry::kernel::{FastKernel, RobustKernel};
+use crate::kfault::{SimFast, SimRobust};
 
 #[derive(Clone)]
 struct Variant {
@@ -87,7 +87,7 @@ fn dirty_thread<const D: usize>(seed: u64) {
         uuid_seed: seed,
         tick_limit: 0,
     };
-    let b = construct::<FastKernel<f64>, D>(&plan, &Op::New { obj: 0, verts, ctor: "guarantee".into(), tg: "PLManifold".into(), opts: Opts::default() });
+    let b = construct::<SimFast, D>(&plan, &Op::New { obj: 0, verts, ctor: "guarantee".into(), tg: "PLManifold".into(), opts: Opts::default() });
     if let Some(mut dt) = b.dt {
         for p in pool.iter().skip(D + 3).take(3) {
             let _ = run_mutator(&mut dt, &plan, &Op::Insert { obj: 0, v: VSpec::new(p, rng.uuid128(), None), stats: true });
@@ -101,15 +101,15 @@ fn dirty_thread<const D: usize>(seed: u64) {
     p2.tick_limit = 1;
     let pool2 = make_pool("dyadic", D, seed ^ 0x7777, 10);
     let verts2: Vec<VSpec> = pool2.iter().map(|p| VSpec::new(p, rng.uuid128(), None)).collect();
-    let _ = construct::<RobustKernel<f64>, D>(&p2, &Op::New { obj: 0, verts: verts2, ctor: "options".into(), tg: "PLManifold".into(), opts: Opts::default() });
+    let _ = construct::<SimRobust, D>(&p2, &Op::New { obj: 0, verts: verts2, ctor: "options".into(), tg: "PLManifold".into(), opts: Opts::default() });
 }
 
 fn build_variant<const D: usize>(run_seed: u64, v: &Variant) -> Built {
     let go = |v: &Variant| -> Built {
         if v.kernel == "fast" {
-            build_one::<FastKernel<f64>, D>(run_seed, v)
+            build_one::<SimFast, D>(run_seed, v)
         } else {
-            build_one::<RobustKernel<f64>, D>(run_seed, v)
+            build_one::<SimRobust, D>(run_seed, v)
         }
     };
     match v.thread {
@@ -124,9 +124,9 @@ fn build_variant<const D: usize>(run_seed: u64, v: &Variant) -> Built {
                         dirty_thread::<D>(seed ^ v2.op.idx);
                     }
                     if v2.kernel == "fast" {
-                        build_one::<FastKernel<f64>, D>(seed, &v2)
+                        build_one::<SimFast, D>(seed, &v2)
                     } else {
-                        build_one::<RobustKernel<f64>, D>(seed, &v2)
+                        build_one::<SimRobust, D>(seed, &v2)
                     }
                 })
                 .expect("spawn")
